@@ -233,6 +233,71 @@ def build(trace, spec, top=True, registry=None):
     return sched
 
 
+def inspect_everything(top, reg):
+    """read-only use of the synchronous API: must leave no trace on a run
+    (before it, in the middle of it, or on what is read after it)"""
+    buf = io.StringIO()
+    with contextlib.redirect_stdout(buf):
+        scheds = [j for j in reg.values() if hasattr(j, 'jobs')]
+        for sched in scheds:
+            members = list(sched.jobs)
+            list(sched.entry_jobs())
+            list(sched.exit_jobs())
+            list(sched.exit_jobs(discard_forever=False))
+            for job in members[:3]:
+                list(sched.successors(job))
+                sched.predecessors(job)
+                sched.successors_downstream(job)
+                sched.predecessors_upstream(job)
+            sched.check_cycles()
+            sched.stats()
+            repr(sched)
+            len(sched)
+        list(top.iterate_jobs(scan_schedulers=True))
+        try:
+            top.list()
+            top.list_safe()
+            top.debrief()
+        except Exception:                               # noqa  listing is judged by C15/C20, not here
+            pass
+        try:
+            top.dot_format()
+        except ValueError:
+            pass                                        # known finding D7 (empty nested scheduler endpoints)
+        for job in reg.values():
+            repr(job)
+
+
+def apply_history(trace, spec, top, reg):
+    """
+    pre-run history (spec['history']['pre']): inspections and *neutral* edit
+    pairs - a requirement added then removed again, a job added then removed
+    again - with inspections in between.  The graph that is finally run is the
+    one the spec describes; the library must not remember anything else.
+    """
+    hist = spec.get('history') or {}
+    for k, op in enumerate(hist.get('pre', [])):
+        if op[0] == 'inspect':
+            inspect_everything(top, reg)
+        elif op[0] == 'edge':
+            _, a, b = op
+            reg[a].requires(reg[b])
+            inspect_everything(top, reg)
+            reg[a].requires(reg[b], remove=True)
+        elif op[0] == 'ghost':
+            _, sid, rid = op
+            ghost = VJob(trace, dict(id='ghost%d' % k, dur=1, critical=False, hash=97 + k))
+            if rid is not None:
+                ghost.requires(reg[rid])
+            reg[sid].add(ghost)
+            inspect_everything(top, reg)
+            reg[sid].remove(ghost)
+        elif op[0] == 'sanitize':
+            buf = io.StringIO()
+            with contextlib.redirect_stdout(buf):
+                top.sanitize()
+
+
 class Execution:
     """everything one execution produced"""
     verdict = None          # ('return', value) | ('raise', exc) | ('wedged', msg) | ('horizon', msg)
@@ -260,6 +325,7 @@ def execute(spec, loop_seed=None, horizon=None, quiescent=None, run_on=1000.0,
         with patched_clock(loop), contextlib.redirect_stdout(out):
             top, reg = build(trace, spec)
             exe.top, exe.reg = top, reg
+            apply_history(trace, spec, top, reg)
             exe.required_before = {vid: set(r.vid for r in job.required)
                                    for vid, job in reg.items() if hasattr(job, 'required')}
 
@@ -322,6 +388,9 @@ def execute(spec, loop_seed=None, horizon=None, quiescent=None, run_on=1000.0,
                     except BaseException as exc:        # noqa
                         exe.explicit_shutdown = ('raise', exc)
             exe.n_final = len(trace.events)
+            if (spec.get('history') or {}).get('post'):
+                # read-only queries after the run must not change what the jobs report
+                inspect_everything(top, reg)
             # ---- final readings of the inspection API
             final = {}
             for vid, job in reg.items():
